@@ -758,6 +758,299 @@ Proof.
   intros pkt Hl. unfold increment_hops. destruct (Nat.ltb_spec 3 (length pkt)); [|lia]. reflexivity.
 Qed.
 
+(* ================================================================== DHCPv6 *)
+Definition enc6 (os : list (N * bytes)) : bytes := concat (map (fun o => opt6 (fst o) (snd o)) os).
+Definition opt6_ok (o : N * bytes) : Prop := fst o < 65536 /\ blen (snd o) < 65536.
+
+Lemma be16_bytes : forall n, n < 65536 -> be16 (byte_of (n / 256)) (byte_of n) = n.
+Proof. intros. unfold be16, byte_of. lia. Qed.
+Lemma opt6_cells : forall c d, opt6 c d = byte_of (c / 256) :: byte_of c :: byte_of (blen d / 256) :: byte_of (blen d) :: d.
+Proof. reflexivity. Qed.
+Lemma enc6_cons : forall o r, enc6 (o :: r) = opt6 (fst o) (snd o) ++ enc6 r. Proof. reflexivity. Qed.
+
+Lemma tlv6_enc6 : forall os f rest, Forall opt6_ok os -> tlv6 (length os + f) (enc6 os ++ rest) = os ++ tlv6 f rest.
+Proof.
+  induction os as [|[c d] r IH]; intros f rest Hok; [reflexivity|].
+  inversion Hok as [|? ? [Hc Hd] Hr]; subst. cbn [fst snd] in Hc, Hd.
+  rewrite enc6_cons. cbn [fst snd length plus]. rewrite opt6_cells, <- app_comm_cons. cbn [app tlv6].
+  rewrite !be16_bytes by assumption. rewrite <- app_assoc. rewrite to_nat_blen, ltb_app_false, firstn_exact, skipn_exact by reflexivity.
+  rewrite IH by assumption. reflexivity.
+Qed.
+Lemma extract_enc6 : forall os f m rest, Forall opt6_ok os -> Forall (fun o => fst o <> 9) os -> blen m < 65536 ->
+  extract_loop (length os + S f) (enc6 os ++ opt6 9 m ++ rest) = Some m.
+Proof.
+  induction os as [|[c d] r IH]; intros f m rest Hok Hn Hm.
+  - cbn [length plus enc6 concat map app]. rewrite opt6_cells. cbn [app extract_loop].
+    rewrite !be16_bytes by (try assumption; lia). rewrite to_nat_blen, ltb_app_false, firstn_exact by reflexivity. reflexivity.
+  - inversion Hok as [|? ? [Hc Hd] Hr]; subst. inversion Hn as [|? ? Hc9 Hn']; subst. cbn [fst snd] in Hc, Hd, Hc9.
+    rewrite enc6_cons. cbn [fst snd length plus]. rewrite opt6_cells, <- app_comm_cons. cbn [app extract_loop].
+    rewrite !be16_bytes by assumption. rewrite <- app_assoc. rewrite to_nat_blen, ltb_app_false, skipn_exact by reflexivity.
+    destruct (N.eqb_spec c 9); [contradiction|]. apply IH; assumption.
+Qed.
+
+Lemma field_length : forall n src, length (field n src) = n.
+Proof.
+  intros n [b|]; unfold field; [|apply repeat_length]. rewrite firstn_length, app_length. unfold zeros. rewrite repeat_length. lia.
+Qed.
+
+Definition relay_opts (p : relay_params) : list (N * bytes) :=
+  (match rp_ifid p with [] => [] | d => [(18, d)] end)
+  ++ (match rp_remote p with [] => [] | d => [(37, put32 (rp_ent p) ++ d)] end)
+  ++ (match rp_sub p with [] => [] | d => [(38, d)] end).
+Definition relay_hdr (ty hop : N) (link peer : option bytes) : bytes := [ty; hop mod 256] ++ ip16_field link ++ ip16_field peer.
+Lemma relay_hdr_length : forall ty hop link peer, length (relay_hdr ty hop link peer) = 34%nat.
+Proof. intros. unfold relay_hdr, ip16_field. rewrite !app_length, !field_length. reflexivity. Qed.
+
+Lemma remote_piece : forall e d, put16 37 ++ put16 (4 + blen d) ++ put32 e ++ d = opt6 37 (put32 e ++ d).
+Proof. intros. unfold opt6. rewrite blen_app. reflexivity. Qed.
+Lemma build_relay_forward_shape : forall msg p,
+  build_relay_forward msg p = relay_hdr 12 (rp_hop p) (rp_link p) (rp_peer p) ++ enc6 (relay_opts p) ++ opt6 9 msg.
+Proof.
+  intros msg p. unfold build_relay_forward, relay_hdr, relay_opts, enc6.
+  destruct (rp_ifid p) as [|i0 ifid]; destruct (rp_remote p) as [|r0 rem]; destruct (rp_sub p) as [|s0 sub];
+    rewrite ?remote_piece; cbn [app map concat fst snd]; rewrite ?app_nil_r, <- ?app_assoc; reflexivity.
+Qed.
+Lemma relay_opts_ok : forall p, blen (rp_ifid p) < 65536 -> blen (rp_remote p) + 4 < 65536 -> blen (rp_sub p) < 65536 ->
+  Forall opt6_ok (relay_opts p) /\ Forall (fun o => fst o <> 9) (relay_opts p).
+Proof.
+  intros p H1 H2 H3. unfold relay_opts.
+  destruct (rp_ifid p) as [|i0 ifid]; destruct (rp_remote p) as [|r0 rem]; destruct (rp_sub p) as [|s0 sub]; cbn [app];
+    split; repeat constructor; cbn [fst snd]; try lia; rewrite blen_app; unfold blen at 1; cbn [put32 length]; lia.
+Qed.
+
+Lemma relay_forward_unwrap : forall msg p,
+  blen msg < 65536 -> blen (rp_ifid p) < 65536 -> blen (rp_remote p) + 4 < 65536 -> blen (rp_sub p) < 65536 ->
+  extract_relay_message (build_relay_forward msg p) = Some msg /\
+  tlv6_all (skipn 34 (build_relay_forward msg p)) = relay_opts p ++ [(9, msg)] /\
+  firstn 34 (build_relay_forward msg p) = relay_hdr 12 (rp_hop p) (rp_link p) (rp_peer p).
+Proof.
+  intros msg p Hm H1 H2 H3. destruct (relay_opts_ok p H1 H2 H3) as [Hok Hn9].
+  rewrite build_relay_forward_shape. set (H := relay_hdr 12 (rp_hop p) (rp_link p) (rp_peer p)).
+  pose proof (relay_hdr_length 12 (rp_hop p) (rp_link p) (rp_peer p)) as LH. fold H in LH.
+  assert (Lopts : (length (relay_opts p) <= 3)%nat).
+  { unfold relay_opts. destruct (rp_ifid p); destruct (rp_remote p); destruct (rp_sub p); cbn; lia. }
+  split; [|split].
+  - unfold extract_relay_message. rewrite skipn_exact by assumption. rewrite app_length, LH.
+    set (L := length (enc6 (relay_opts p) ++ opt6 9 msg)).
+    destruct (Nat.ltb_spec (34 + L) 34); [lia|].
+    replace (S (34 + L)) with (length (relay_opts p) + S (34 + L - length (relay_opts p)))%nat by lia.
+    rewrite <- (app_nil_r (opt6 9 msg)). apply extract_enc6; assumption.
+  - rewrite skipn_exact by assumption. unfold tlv6_all.
+    set (L := length (enc6 (relay_opts p) ++ opt6 9 msg)).
+    replace (enc6 (relay_opts p) ++ opt6 9 msg) with (enc6 (relay_opts p ++ [(9, msg)]) ++ [])
+      by (unfold enc6; rewrite map_app, concat_app; cbn [map concat fst snd]; rewrite !app_nil_r; reflexivity).
+    set (os' := relay_opts p ++ [(9, msg)]).
+    assert (Los : (length os' <= 4)%nat) by (subst os'; rewrite app_length; cbn [length]; lia).
+    assert (LL : (4 <= L)%nat) by (subst L; rewrite app_length; unfold opt6; rewrite !app_length; cbn [length put16]; lia).
+    replace (S L) with (length os' + (S L - length os'))%nat by lia.
+    rewrite tlv6_enc6.
+    + destruct (S L - _)%nat; cbn [tlv6]; apply app_nil_r.
+    + apply Forall_app. split; [assumption|]. repeat constructor; cbn [fst snd]; lia.
+  - apply firstn_exact. assumption.
+Qed.
+
+Lemma relay_reply_unwrap : forall inner hop link peer ifid, blen inner < 65536 -> blen ifid < 65536 ->
+  unwrap_relay_reply (build_relay_reply inner hop link peer ifid) = Ok inner.
+Proof.
+  intros inner hop link peer ifid Hi Hf.
+  assert (Shape : build_relay_reply inner hop link peer ifid =
+                  relay_hdr 13 hop link peer ++ enc6 (match ifid with [] => [] | d => [(18, d)] end) ++ opt6 9 inner).
+  { unfold build_relay_reply, relay_hdr, enc6. destruct ifid; cbn [app map concat fst snd]; rewrite ?app_nil_r, <- ?app_assoc; reflexivity. }
+  rewrite Shape. set (os := match ifid with [] => [] | d => [(18, d)] end).
+  pose proof (relay_hdr_length 13 hop link peer) as LH.
+  assert (Hos : Forall opt6_ok os /\ Forall (fun o => fst o <> 9) os /\ (length os <= 1)%nat).
+  { subst os. destruct ifid; cbn [length]; repeat split; repeat constructor; cbn [fst snd]; lia. }
+  destruct Hos as [Hok [Hn9 Lo]].
+  unfold unwrap_relay_reply, extract_relay_message.
+  change (nth 0 (relay_hdr 13 hop link peer ++ enc6 os ++ opt6 9 inner) 0) with 13. change (13 =? 13) with true. cbn [negb].
+  rewrite skipn_exact by assumption. rewrite app_length, LH.
+  set (L := length (enc6 os ++ opt6 9 inner)).
+  destruct (Nat.ltb_spec (34 + L) 34); [lia|].
+  replace (S (34 + L)) with (length os + S (34 + L - length os))%nat by lia.
+  rewrite <- (app_nil_r (opt6 9 inner)). rewrite extract_enc6 by assumption. reflexivity.
+Qed.
+
+(* Response.Serialize: the option list it is supposed to carry *)
+Definition options6 (r : response6) : list (N * bytes) :=
+  [(1, r_client r); (2, r_server r)]
+  ++ (match r_iana r with Some i => if has_addr (r_iana r) then [(3, iana_payload i)] else [] | None => [] end)
+  ++ (match r_iapd r with Some i => if has_prefix (r_iapd r) then [(25, iapd_payload i)] else [] | None => [] end)
+  ++ (match r_dns r with [] => [] | _ => [(23, concat (map ip16_field (r_dns r)))] end)
+  ++ (match r_status r with Some (c, m) => [(13, put16 c ++ m)] | None => [] end)
+  ++ r_extras r.
+Lemma enc6_app : forall a b, enc6 (a ++ b) = enc6 a ++ enc6 b.
+Proof. intros. unfold enc6. rewrite map_app, concat_app. reflexivity. Qed.
+Lemma serialize6_shape : forall r,
+  serialize6 r = ([r_type r mod 256] ++ firstn 3 (r_txid r ++ zeros 3)) ++ enc6 (options6 r).
+Proof.
+  intros r. unfold serialize6, options6. rewrite !enc6_app.
+  assert (E0 : enc6 [(1, r_client r); (2, r_server r)] = opt6 1 (r_client r) ++ opt6 2 (r_server r))
+    by (unfold enc6; cbn [map concat fst snd]; rewrite app_nil_r; reflexivity).
+  assert (E1 : enc6 (match r_iana r with Some i => if has_addr (r_iana r) then [(3, iana_payload i)] else [] | None => [] end)
+               = match r_iana r with Some i => if has_addr (r_iana r) then opt6 3 (iana_payload i) else [] | None => [] end)
+    by (destruct (r_iana r); [destruct (has_addr _)|]; unfold enc6; cbn [map concat fst snd]; rewrite ?app_nil_r; reflexivity).
+  assert (E2 : enc6 (match r_iapd r with Some i => if has_prefix (r_iapd r) then [(25, iapd_payload i)] else [] | None => [] end)
+               = match r_iapd r with Some i => if has_prefix (r_iapd r) then opt6 25 (iapd_payload i) else [] | None => [] end)
+    by (destruct (r_iapd r); [destruct (has_prefix _)|]; unfold enc6; cbn [map concat fst snd]; rewrite ?app_nil_r; reflexivity).
+  rewrite E0, E1, E2. clear E0 E1 E2.
+  destruct (r_dns r); destruct (r_status r) as [[c m]|]; unfold enc6; cbn [map concat fst snd];
+    rewrite ?app_nil_r, <- ?app_assoc; reflexivity.
+Qed.
+Lemma dhcp6_roundtrip : forall r, length (r_txid r) = 3%nat -> r_type r < 256 -> Forall opt6_ok (options6 r) ->
+  nth 0 (serialize6 r) 0 = r_type r /\ firstn 3 (skipn 1 (serialize6 r)) = r_txid r /\
+  tlv6_all (skipn 4 (serialize6 r)) = options6 r.
+Proof.
+  intros r Lt Hty Hok. rewrite serialize6_shape.
+  assert (Etx : firstn 3 (r_txid r ++ zeros 3) = r_txid r) by (apply firstn_exact; assumption).
+  rewrite Etx. split; [|split].
+  - cbn [app nth]. lia.
+  - cbn [app skipn]. rewrite <- ?app_assoc. apply firstn_exact. assumption.
+  - rewrite skipn_exact by (rewrite app_length, Lt; reflexivity). unfold tlv6_all.
+    set (L := length (enc6 (options6 r))).
+    assert (Hl : (length (options6 r) <= L)%nat).
+    { subst L. clear. induction (options6 r) as [|o q IH]; [cbn; lia|]. rewrite enc6_cons, app_length. unfold opt6.
+      rewrite !app_length. cbn [length put16]. lia. }
+    replace (S L) with (length (options6 r) + (S L - length (options6 r)))%nat by lia.
+    rewrite <- (app_nil_r (enc6 (options6 r))). rewrite tlv6_enc6 by assumption.
+    destruct (S L - _)%nat; cbn [tlv6]; apply app_nil_r.
+Qed.
+
+(* ================================================================== DHCPv4 reply builder *)
+Fixpoint split_items (fuel : nat) (c : N) (d : bytes) : list item :=
+  match fuel with
+  | O => [Opt c d]
+  | S f => if (255 <? length d)%nat then Opt c (firstn 255 d) :: split_items f c (skipn 255 d) else [Opt c d]
+  end.
+Lemma enc_single : forall c d, enc [Opt c d] = c :: blen d :: d.
+Proof. intros. unfold enc. cbn [map concat enc_item]. apply app_nil_r. Qed.
+Lemma add_opt_split_enc : forall f c d, (length d <= f)%nat -> c <> 0 -> c <> 255 ->
+  add_opt_split f c d = enc (split_items f c d) /\ Forall item_ok (split_items f c d) /\
+  concat (map snd (opts_of (split_items f c d))) = d /\
+  Forall (fun o => fst o = c) (opts_of (split_items f c d)).
+Proof.
+  induction f as [|f IH]; intros c d Hl H0 H255.
+  - assert (d = []) by (destruct d; [reflexivity|cbn in Hl; lia]). subst d. cbn [add_opt_split split_items].
+    rewrite enc_single. split; [reflexivity|]. split; [constructor; [cbn [item_ok length]; repeat split; try assumption; lia|constructor]|].
+      split; [cbn [opts_of map concat snd]; apply app_nil_r|]. cbn [opts_of]. constructor; [reflexivity|constructor].
+  - cbn [add_opt_split split_items]. destruct (Nat.ltb_spec 255 (length d)) as [Hb|Hs].
+    + destruct (IH c (skipn 255 d)) as [E [Ok' [Cc Fc]]]; try assumption; [rewrite skipn_length; lia|].
+      rewrite E. assert (L255 : length (firstn 255 d) = 255%nat) by (rewrite firstn_length; lia).
+      split; [|split; [|split]].
+      * rewrite enc_cons. cbn [enc_item]. unfold blen. rewrite L255. rewrite <- ?app_assoc. reflexivity.
+      * constructor; [|assumption]. cbn [item_ok]. repeat split; try assumption. lia.
+      * cbn [opts_of map concat snd]. rewrite Cc. apply firstn_skipn.
+      * cbn [opts_of]. constructor; [reflexivity|assumption].
+    + rewrite enc_single. split; [reflexivity|]. split; [constructor; [cbn [item_ok length]; repeat split; try assumption; lia|constructor]|].
+      split; [cbn [opts_of map concat snd]; apply app_nil_r|]. cbn [opts_of]. constructor; [reflexivity|constructor].
+Qed.
+
+Definition reply_items (mt : N) (opts : list (N * bytes)) : list item :=
+  concat (map (fun o => split_items (length (snd o)) (fst o) (snd o)) ((53, [mt mod 256]) :: opts)).
+Definition opt_code_ok (o : N * bytes) : Prop := fst o <> 0 /\ fst o <> 255.
+
+Lemma write_opts_enc : forall opts, Forall opt_code_ok opts ->
+  let its := concat (map (fun o => split_items (length (snd o)) (fst o) (snd o)) opts) in
+  write_opts Repaired opts = enc its /\ Forall item_ok its /\
+  forall code, opt_value code (opts_of its) = concat (map snd (filter (has_code code) opts)).
+Proof.
+  induction opts as [|[c d] r IH]; intros Hok.
+  - cbn. repeat split; constructor.
+  - inversion Hok as [|? ? [H0 H255] Hr]; subst. cbn [fst snd] in H0, H255.
+    destruct (IH Hr) as [E [Ok' V]]. cbn zeta in *.
+    destruct (add_opt_split_enc (length d) c d (le_n _) H0 H255) as [E1 [Ok1 [C1 F1]]].
+    cbn [map concat fst snd]. split; [|split].
+    + unfold write_opts in *. cbn [map concat]. change (add_opt Repaired (fst (c, d)) (snd (c, d))) with (add_opt_split (length d) c d).
+      rewrite E1, E, enc_app. reflexivity.
+    + apply Forall_app. split; assumption.
+    + intros code. rewrite opts_of_app. unfold opt_value in *. rewrite filter_app, map_app, concat_app, V.
+      cbn [filter]. change (has_code code (c, d)) with (c =? code).
+      assert (Hf : forall l, Forall (fun o : N * bytes => fst o = c) l ->
+                   filter (fun o => fst o =? code) l = if c =? code then l else []).
+      { induction l as [|o q IHl]; intros Hq; [destruct (c =? code); reflexivity|].
+        apply Forall_cons_iff in Hq. destruct Hq as [Ho Hq']. cbn [filter]. rewrite Ho, (IHl Hq'). destruct (c =? code); reflexivity. }
+      rewrite (Hf _ F1). destruct (c =? code); cbn [map concat snd]; rewrite ?C1; reflexivity.
+Qed.
+
+Lemma be_num_put32 : forall n, n < 4294967296 -> be_num (put32 n) = n.
+Proof. intros n H. unfold be_num, put32, byte_of. cbn [fold_left]. lia. Qed.
+Lemma block {A} : forall (a b c : list A) n k, length a = n -> length b = k -> firstn k (skipn n (a ++ b ++ c)) = b.
+Proof. intros a b c n k Ha Hb. rewrite skipn_exact by assumption. apply firstn_exact. assumption. Qed.
+
+Definition reply_hdr (xid : N) (ci yi si : option bytes) (hw : bytes) : bytes :=
+  [2; 1; 6; 0] ++ put32 xid ++ zeros 4 ++ ip4_field ci ++ ip4_field yi ++ ip4_field si
+  ++ zeros 4 ++ firstn 208 (hw ++ zeros 208) ++ magic.
+Lemma mid_length : forall hw, length (firstn 208 (hw ++ zeros 208)) = 208%nat.
+Proof. intros. rewrite firstn_length, app_length. unfold zeros. rewrite repeat_length. lia. Qed.
+Lemma reply_hdr_length : forall xid ci yi si hw, length (reply_hdr xid ci yi si hw) = 240%nat.
+Proof.
+  intros. unfold reply_hdr, ip4_field. rewrite !app_length, !field_length, mid_length. reflexivity.
+Qed.
+
+Lemma opts_of_ok : forall its, Forall item_ok its ->
+  Forall (fun o => (length (snd o) <= 255)%nat /\ fst o <> 0 /\ fst o <> 255) (opts_of its).
+Proof.
+  induction its as [|[|c d] r IH]; intros H; [constructor| |].
+  - inversion H; subst. apply IH; assumption.
+  - inversion H as [|? ? Hit Hr]; subst. cbn [item_ok] in Hit. cbn [opts_of]. constructor; [cbn [fst snd]; tauto|apply IH; assumption].
+Qed.
+Lemma firstn_zeros : forall k m, (k <= m)%nat -> firstn k (zeros m) = zeros k.
+Proof. induction k; intros m H; [reflexivity|]. destruct m; [lia|]. cbn. f_equal. apply IHk. lia. Qed.
+Lemma firstn_pad : forall (hw : bytes) n m, (length hw <= n)%nat -> (n <= length hw + m)%nat ->
+  firstn n (hw ++ zeros m) = hw ++ zeros (n - length hw).
+Proof. intros. rewrite firstn_app, firstn_all2 by lia. rewrite firstn_zeros by lia. reflexivity. Qed.
+
+Lemma reply_decodes : forall xid ci yi si hw mt opts,
+  xid < 4294967296 -> (length hw <= 16)%nat -> Forall opt_code_ok opts ->
+  exists p view, build_dhcp4_reply Repaired xid ci yi si hw mt opts = Ok p /\ ref_decode4 p = Some view /\
+    v_op view = 2 /\ v_xid view = xid /\ v_yiaddr view = ip4_field yi /\ v_ciaddr view = ip4_field ci /\
+    v_chaddr view = hw ++ zeros (16 - length hw) /\
+    v_cookie_ok view = true /\ v_end view = EndSeen [] /\
+    Forall (fun o => (length (snd o) <= 255)%nat /\ fst o <> 0 /\ fst o <> 255) (v_opts view) /\
+    forall code, opt_value code (v_opts view) = concat (map snd (filter (has_code code) ((53, [mt mod 256]) :: opts))).
+Proof.
+  intros xid ci yi si hw mt opts Hx Hhw Hok.
+  assert (Hok' : Forall opt_code_ok ((53, [mt mod 256]) :: opts)) by (constructor; [split; cbn; lia|assumption]).
+  destruct (write_opts_enc _ Hok') as [E [Oki V]]. cbn zeta in E, Oki, V. fold (reply_items mt opts) in E, Oki, V.
+  unfold build_dhcp4_reply. destruct (Nat.ltb_spec 212 (length hw)); [lia|].
+  assert (Ep : [2; 1; 6; 0] ++ put32 xid ++ zeros 4 ++ ip4_field ci ++ ip4_field yi ++ ip4_field si ++ zeros 4 ++
+               firstn 208 (hw ++ zeros 208) ++ magic ++ add_opt Repaired 53 [mt mod 256] ++ write_opts Repaired opts ++ [255]
+               = wf_pkt (reply_hdr xid ci yi si hw) (reply_items mt opts) []).
+  { unfold wf_pkt, reply_hdr. rewrite <- E. unfold write_opts. cbn [map concat fst snd]. rewrite <- !app_assoc. reflexivity. }
+  rewrite Ep. pose proof (reply_hdr_length xid ci yi si hw) as LH.
+  eexists. eexists. split; [reflexivity|]. unfold ref_decode4. rewrite wf_pkt_len by assumption.
+  rewrite ref_options_wf by assumption. split; [reflexivity|]. cbn [v_op v_xid v_yiaddr v_ciaddr v_chaddr v_cookie_ok v_end v_opts].
+  set (tail := enc (reply_items mt opts) ++ [255]).
+  assert (Fl : forall ip, length (ip4_field ip) = 4%nat) by (intros; apply field_length).
+  split; [reflexivity|]. split; [|split; [|split; [|split; [|split; [|split; [|split]]]]]].
+  - unfold wf_pkt, reply_hdr. rewrite <- !app_assoc.
+    rewrite (block [2; 1; 6; 0] (put32 xid) _ 4 4) by reflexivity. apply be_num_put32. assumption.
+  - unfold wf_pkt, reply_hdr. rewrite <- !app_assoc.
+    replace ([2; 1; 6; 0] ++ put32 xid ++ zeros 4 ++ ip4_field ci ++ ip4_field yi ++ ip4_field si ++ zeros 4 ++ firstn 208 (hw ++ zeros 208) ++ magic ++ enc (reply_items mt opts) ++ [255])
+      with (([2; 1; 6; 0] ++ put32 xid ++ zeros 4 ++ ip4_field ci) ++ ip4_field yi ++ (ip4_field si ++ zeros 4 ++ firstn 208 (hw ++ zeros 208) ++ magic ++ enc (reply_items mt opts) ++ [255]))
+      by (rewrite <- !app_assoc; reflexivity).
+    apply block; [rewrite !app_length, Fl; reflexivity|apply Fl].
+  - unfold wf_pkt, reply_hdr. rewrite <- !app_assoc.
+    replace ([2; 1; 6; 0] ++ put32 xid ++ zeros 4 ++ ip4_field ci ++ ip4_field yi ++ ip4_field si ++ zeros 4 ++ firstn 208 (hw ++ zeros 208) ++ magic ++ enc (reply_items mt opts) ++ [255])
+      with (([2; 1; 6; 0] ++ put32 xid ++ zeros 4) ++ ip4_field ci ++ (ip4_field yi ++ ip4_field si ++ zeros 4 ++ firstn 208 (hw ++ zeros 208) ++ magic ++ enc (reply_items mt opts) ++ [255]))
+      by (rewrite <- !app_assoc; reflexivity).
+    apply block; [reflexivity|apply Fl].
+  - unfold wf_pkt, reply_hdr. rewrite <- !app_assoc.
+    replace ([2; 1; 6; 0] ++ put32 xid ++ zeros 4 ++ ip4_field ci ++ ip4_field yi ++ ip4_field si ++ zeros 4 ++ firstn 208 (hw ++ zeros 208) ++ magic ++ enc (reply_items mt opts) ++ [255])
+      with (([2; 1; 6; 0] ++ put32 xid ++ zeros 4 ++ ip4_field ci ++ ip4_field yi ++ ip4_field si ++ zeros 4) ++ (firstn 208 (hw ++ zeros 208) ++ magic ++ enc (reply_items mt opts) ++ [255]))
+      by (rewrite <- !app_assoc; reflexivity).
+    rewrite skipn_exact by (rewrite !app_length, !Fl; reflexivity).
+    rewrite firstn_app, mid_length. change (16 - 208)%nat with 0%nat. rewrite firstn_O, app_nil_r.
+    rewrite firstn_firstn. change (Nat.min 16 208) with 16%nat. apply firstn_pad; lia.
+  - unfold wf_pkt, reply_hdr. rewrite <- !app_assoc.
+    replace ([2; 1; 6; 0] ++ put32 xid ++ zeros 4 ++ ip4_field ci ++ ip4_field yi ++ ip4_field si ++ zeros 4 ++ firstn 208 (hw ++ zeros 208) ++ magic ++ enc (reply_items mt opts) ++ [255])
+      with (([2; 1; 6; 0] ++ put32 xid ++ zeros 4 ++ ip4_field ci ++ ip4_field yi ++ ip4_field si ++ zeros 4 ++ firstn 208 (hw ++ zeros 208)) ++ magic ++ (enc (reply_items mt opts) ++ [255]))
+      by (rewrite <- !app_assoc; reflexivity).
+    rewrite block; [reflexivity| |reflexivity]. rewrite !app_length, !Fl, mid_length. reflexivity.
+  - reflexivity.
+  - apply opts_of_ok. assumption.
+  - exact V.
+Qed.
+
 (* concrete packets used by the non-vacuity examples and the refutation witnesses *)
 Definition ex_hdr : bytes := zeros 236 ++ magic.
 Definition ex_two82 : list item := [Opt 53 [1]; Pad; Opt 82 [1;1;65]; Opt 82 [1;1;66]].
@@ -770,3 +1063,7 @@ Proof. unfold ex_badlen. repeat (constructor; [cbn [item_ok length]; try exact I
 Definition ex_server : list item := [Opt 53 [5]; Opt 54 [1;2;3;4]; Opt 51 [0;0;0;9]; Pad; Opt 58 [0;0;0;4]; Opt 59 [0;0;0;7]; Opt 1 [255;255;255;0]].
 Lemma ex_server_ok : Forall item_ok ex_server.
 Proof. unfold ex_server. repeat (constructor; [cbn [item_ok length]; try exact I; repeat split; lia|]). constructor. Qed.
+
+Lemma t1_le_t2 : forall x, x / 2 <= t2_of Repaired x /\ pref_t1 x <= pref_t2 Repaired x /\
+                           t2_of Repaired x <= x /\ pref_t2 Repaired x <= x.
+Proof. intros x. unfold t2_of, pref_t1, pref_t2. repeat split; lia. Qed.
